@@ -312,7 +312,7 @@ func (e *Engine) collectHavoc(nodes []ast.Node, st *State) *havocSet {
 			// methods of standard-library readers / decoders: their ghost progress counters change
 			if se, ok := x.Fun.(*ast.SelectorExpr); ok {
 				if sel := e.info().Selections[se]; sel != nil && sel.Kind() == types.MethodVal {
-					if fn, ok := sel.Obj().(*types.Func); ok && fn.Pkg() != nil && (fn.Pkg().Path() == "encoding/json" || fn.Pkg().Path() == "encoding/csv" || fn.Pkg().Path() == "database/sql") {
+					if fn, ok := sel.Obj().(*types.Func); ok && fn.Pkg() != nil && (fn.Pkg().Path() == "encoding/json" || fn.Pkg().Path() == "encoding/csv" || fn.Pkg().Path() == "database/sql" || fn.Pkg().Path() == "io") {
 						tmp := st.clone()
 						nob := len(e.obls)
 						func() {
@@ -324,6 +324,9 @@ func (e *Engine) collectHavoc(nodes []ast.Node, st *State) *havocSet {
 								h.mem["sqlcur:"+b.T.String()] = true
 								if fn.Pkg().Path() == "encoding/csv" {
 									h.mem["csvpending:"+b.T.String()] = true
+								}
+								if fn.Pkg().Path() == "io" {
+									h.mem["nwr:"+b.T.String()] = true
 								}
 							}
 						}()
